@@ -276,6 +276,23 @@ CHECKS['C14'] = (
     'the model (validated by C08); merged geometries keep probes apart.',
     'DESIGN.md section 6 C14')
 
+CHECKS['C10'] = (
+    'explicit-state breadth-first search over save/reload histories (bfs mode) with the selector draw '
+    'scripted (env seam); canonical state = (directory digest, live-model descriptor); a fresh '
+    'load_model after every event is compared with a dictionary reference model',
+    'Bounded exhaustive exploration: from two generated datasets (with / without raw data) every '
+    'history of depth <= 3 (4 thorough) over 27 (39) events - save_spike_clusters(merge / split / '
+    'identity), save_metadata(2 fields x 4 mappings incl. None entries, floats, strings with spaces, '
+    'empty), foreign TSV/CSV files (valid, empty, ragged, invalid UTF-8; + header-only, no cluster_id '
+    'column), save_spikes_subset_waveforms under both scripted draws, close, reload - is replayed on '
+    'a fresh directory (5 064 canonical states, 15 117 transitions quick). After every event a fresh '
+    'load must show the last saved clusters, the last saved mapping of every field with types '
+    'preserved, the fields of valid foreign files, unchanged templates and samples, subset-store '
+    'waveforms equal to the raw window, and must never fail because of a malformed file.',
+    'Foreign files use field names of their own; methods of a closed model are not called except '
+    'reload; the selector draw is scripted rather than fully enumerated here (C17 enumerates it).',
+    'DESIGN.md section 6 C10')
+
 NOT_YET = {}
 
 ALL = ['C%02d' % i for i in range(1, 21)]
